@@ -115,6 +115,19 @@ EXPECT = [
      '[[1, "foo", 1, 2, 3, 5], [2, "foo", 1, 2, 3, 5]]\n[[1, "foo", 1, 2, 3, 5], ["own", 3, 1, 2, 3, 4], [2, "foo", 1, 2, 3, 5]]\n'
      '[[1, "foo", 1, 2, 3, 5], [2, "foo", 1, 2, 3, 5], ["own", 3, 1, 2, 3, 4]]\n[[1, "foo", 1, 2, 3, 7], [2, "foo", 1, 2, 3, 7]]\n'
      '[[1, "foo", 1, nil, nil, 5], [2, "foo", 1, nil, nil, 5]]\n'),
+    ("one_source_object_two_parents",
+     'Animal := {tag: 1, name: "animal", _missing: m{|n| "miss:" + n}}\nCat := Animal.bear({tag: 2, name: "cat"})\nDog := Animal.bear({tag: 3, name: "dog"})\n'
+     "props := {id: 7}\nc := Cat.bear(props)\nd := Dog.bear(props)\n"
+     "[c.name, d.name, c.name, c.zz, d.zz, c.id, d.id, c.proto['tag], d.proto['tag], c.which('name)['tag], d.which('name)['tag]].p\n",
+     '["cat", "dog", "cat", "miss:zz", "miss:zz", 7, 7, 2, 3, 2, 3]\n'),
+    ("empty_prototype_links_are_links",
+     'Animal := {tag: 1, name: "animal"}\nPet := Animal.bear\nKit := Pet.bear({tag: 9})\n'
+     "[Kit.proto == Pet, Kit.proto.proto['tag], Kit.ancestors.len, Kit.kindOf?(Pet), Pet.proto['tag], Kit.name].p\n"
+     "E := {}\nF := E.bear({tag: 5})\n[F.proto == E, F.ancestors.len, F.proto.proto['_name]].p\nG := Kit.bro({tag: 10})\n[G.proto == Pet, G.ancestors.len].p\n",
+     '[true, 1, 4, true, 1, "animal"]\n[true, 3, "Obj"]\n[true, 4]\n'),
+    ("non_ascii_names_are_not_public",
+     'o := {"\u540d\u524d": 1, "\u00e9": 2, a: 3, "\u00fc1": 4, _b: 5}\n[o.keys, o.values, o.keys(private?: true).len, o.items.len].p\no@{|k, v| k}.p\n',
+     '[["a"], [3], 5, 1]\n["a"]\n'),
     ("missing_gets_private_and_kwargs",
      "k := {tag: 4, _missing: {|self, name, x, k: 0| [self.tag, name, x, k]}}\nchild := k.bear({tag: 5})\n"
      "child._foo(1, k: 2).p\nchild._foo.p\nchild.zz(1, k: 2).p\nchild['_foo].p\n{_p: 1}._p.p\n",
